@@ -140,7 +140,7 @@ def _history(case, ctx, res):
     nops = int(rng.integers(3, 16))
     for step in range(nops):
         op = ["set", "set", "replace", "bad", "del", "pop", "get", "update", "updatekw", "clear", "copy",
-              "getitem", "missing"][int(rng.integers(0, 13))]
+              "getitem", "missing", "update-mixed-shapes"][int(rng.integers(0, 14))]
         key = KEYS[int(rng.integers(0, len(KEYS)))]
         steps.append(op + ":" + key)
         before_obs = _observe(cont, is_ds)
@@ -198,6 +198,35 @@ def _history(case, ctx, res):
             if not o.ok or o.value is not exp:
                 res.violate("get-differs-from-dict", f"{label}: {o.describe()}", steps=steps)
                 return
+        elif op == "update-mixed-shapes":
+            # update() with values of unequal shapes: whatever the group held before (in particular: nothing), it
+            # must not end up holding members of different shapes; either the accepted prefix or nothing is inserted
+            if is_ds or (model and _group_shape(model) == ()):
+                continue
+            base = _group_shape(model)[0] if model else n0
+            ks = [k2 for k2 in KEYS if k2 not in model][:3] or KEYS[:2]
+            new = {}
+            for j, k2 in enumerate(ks):
+                new[k2] = _member(osy, rng, base if j == 0 else base + j)
+            if len(new) < 2:
+                continue
+            had_reject = True
+            how = rng.random() < 0.5
+            o = attempt(cont.update, new) if how else attempt(lambda: cont.update(**new))
+            res.count("rejected-insertion-leaves-state")
+            shapes = {v.shape for v in cont.values()}
+            if len(shapes) > 1:
+                res.violate("members-misaligned", f"{label}: update() with shapes {[v.shape for v in new.values()]} on a group of "
+                            f"{len(model)} members left members of shapes {sorted(shapes)}", steps=steps)
+                return
+            if o.ok:
+                res.violate("bad-insertion-accepted", f"{label}: update() with unequal shapes {[v.shape for v in new.values()]} raised nothing",
+                            steps=steps)
+                return
+            # model: the accepted prefix (sequential semantics) or nothing (atomic semantics)
+            first = ks[0]
+            if first in cont.keys() and cont[first] is new[first]:
+                model[first] = new[first]
         elif op in ("update", "updatekw"):
             new = {}
             for k2 in KEYS:
